@@ -16,6 +16,26 @@ CHECKS = {
          "Random search over expression trees to depth 6 against a reference evaluator written from the language description; value, size and error/no-error are compared for every expression in both printings. Exploration of an infinite space: finds wrong operators, precedence, sizes and encodings with high probability, proves nothing about unexplored trees.",
          "The precedence table is the pinned one (no other documentation exists); numeric value of strings whose first byte is >= 0x80 and ascii() of non-ASCII characters are not asserted; trusted: num-bigint +,-,*,divrem, comparison, unsigned bit ops.",
          "6/C05"),
+ "C01": ("exploration",
+         "model-based property testing: generated instruction sets x generated programs vs. an independent reference assembler (structural matcher + layout + expression model), shrinking via proptest choice tape",
+         "Random search over (instruction set, program) pairs against a reference assembler written from the language rules: accept/reject must agree, and on success every output bit, the length and the symbol table must be identical. Finds wrong range predicates, rule selection, bit order, address arithmetic, scoping; exploration only (sampled space, bounded sizes: <= 14+ rules, <= 24 items, widths <= 64).",
+         "Generated shapes keep the token reading of a line unique so that the structural matcher coincides with character-level matching; programs the model cannot size before values are discarded (counted); trusted: the reference models (validated by seeded mutants) and num-bigint.",
+         "6/C01"),
+ "C02": ("exploration",
+         "property-based testing with a certificate oracle: the assembler's claimed layout (sizes from output.spans) is re-derived and every instruction re-resolved with the final symbol values by the reference matcher/evaluator",
+         "Random search over cascading instruction sets/programs x iteration budgets x both optimisation switches; every success is checked to be a genuine fixed point (independent of which fixed point was found). Exploration: budgets and programs are sampled (thorough runs all 15 budgets x 4 switch combinations per program).",
+         "Span order = item order (checked); the reference matcher/evaluator as in C01.",
+         "6/C02"),
+ "C08": ("exploration",
+         "metamorphic/differential property testing: the same job under the four optimisation-switch combinations x five iteration budgets must agree on success, bits and symbols",
+         "Differential run of the real code against itself over generated (size-static and cascading) programs, the whole test corpus and token-mutated corpus programs. No model is trusted; exploration of a sampled program space.",
+         "AssemblyOptions fields stand for the command-line flags; two listed known findings (budget-starved unoptimised resolver; blank inside the leading literal run of a rule) are matched by narrow input+outcome signatures.",
+         "6/C08"),
+ "C09": ("exploration",
+         "metamorphic property testing over iteration budgets: the set of succeeding budgets must be upward closed with identical outputs and passes <= budget",
+         "Differential run of the real code against itself under budgets {1,2,3,4,5,10,11,30} over cascading/static generated programs, corpus programs (asm blocks, #assert) and their mutants; exploration.",
+         "None beyond the code itself.",
+         "6/C09"),
  "C03": ("fault_enumeration",
          "property-based fuzzing (proptest choice tape, token-level mutation of the test corpus) + exhaustive single I/O fault enumeration per case, outcome predicate on driver::drive",
          "Search over mutated corpus programs x generated command lines with an outcome predicate (no panic; Ok <=> no error diagnostic; Err => error diagnostic and nothing written), and for a quarter of the cases every single permanent read/write fault is enumerated. Exploration, not proof: it samples the input space, but each sampled case gets all of its faults.",
